@@ -22,7 +22,7 @@ RULE = (
 )
 ASSUMPTIONS = [
     "oracle is the relation itself (no reference model): all runs are the real code on fresh instances",
-    "'stopped' is compared between collect/next/fast_forward, not for collect(nexts=n) (an early exit leaves the run unfinished by design)",
+    "'stopped' after collect(nexts=n) is compared with its value at the n-th yield of next() (an early exit leaves the run unfinished by design, so it is not compared with the finished run)",
     "the list objects next() yielded are kept and must still equal their as-yielded copies after the run (list(path.next()) is the documented way to gather them)",
 ]
 
@@ -50,6 +50,8 @@ def _with_collect(draw, base):
     if not c.get("collect") and draw(st.sampled_from([False, False, False, True])):
         modes.append(draw(st.sampled_from(["run-mode: no-run", "unmatched-mode: keep", "return-mode: no-matches", "unmatched-mode: keep return-mode: no-matches"])))
     c["modes"] = modes
+    # the constructor argument skip_blank_lines=False: blank records are then scanned and matched like any other
+    c["keep_blank"] = draw(st.sampled_from([False, False, False, True]))
     return c
 
 
@@ -78,15 +80,27 @@ def run_case(case, sb):
         meta = (["logic-mode: OR"] if case["prog"].get("mode") == "OR" else []) + case["modes"]
         text = common.text_of(case["prog"], rel, case["scan"], comment="~ " + " ".join(meta) + " ~ ")
     labels = ["shape:" + case["shape"]] + ["mode:" + m for m in case.get("modes", [])] + (["collect()"] if case.get("collect") else [])
-    A = real.run_path(text, method="collect")
-    B = real.run_next_with_snapshots(text)
-    C = real.run_path(text, method="fast_forward")
+    sbl = not case.get("keep_blank", False)
+    if not sbl:
+        labels.append("skip_blank_lines=False")
+    A = real.run_path(text, method="collect", skip_blank_lines=sbl)
+    B = real.run_next_with_snapshots(text, skip_blank_lines=sbl)
+    C = real.run_path(text, method="fast_forward", skip_blank_lines=sbl)
     problems = []
     if A["raised"] or B["raised"] or C["raised"]:
         if not (A["raised"] and B["raised"] and C["raised"]):
             problems.append({"raised": {"collect": A["raised"], "next": B["raised"], "fast_forward": C["raised"]}})
         else:
-            return core.outcome(undefined=True, labels=["all-three-raise"])
+            # all three end with an exception: at the same point, leaving the same state
+            labels.append("all-three-raise")
+            for k in STATE:
+                if k != "stopped" and not (A[k] == B[k] == C[k]):
+                    problems.append({"all_three_raise": True, "field": k, "collect": A[k], "next": B[k], "fast_forward": C[k]})
+            if (A["raised"] or {}).get("raised") != (B["raised"] or {}).get("raised") or (A["raised"] or {}).get("raised") != (C["raised"] or {}).get("raised"):
+                problems.append({"raised": {"collect": A["raised"], "next": B["raised"], "fast_forward": C["raised"]}})
+            ok = not problems
+            summary = {"csvpath": text, "records": records, "raised": A["raised"]}
+            return core.outcome(ok=ok, nontrivial=False, labels=labels, detail=None if ok else dict(summary, problems=problems), summary=summary)
     else:
         if A["lines"] != B["lines"]:
             problems.append({"collect_lines": A["lines"], "next_lines": B["lines"]})
@@ -99,7 +113,7 @@ def run_case(case, sb):
         n_all = len(A["lines"])
         # (the n-th yield of next() is the reference below: only meaningful when the full runs agree)
         for n in (range(1, n_all + 2) if not problems else ()):
-            D = real.run_path(text, method="collect", nexts=n)
+            D = real.run_path(text, method="collect", nexts=n, skip_blank_lines=sbl)
             if D["raised"]:
                 problems.append({"nexts": n, "raised": D["raised"]})
                 break
